@@ -92,6 +92,11 @@ def _near(a, b, ulps=4):
     return abs(a - b) <= ulps * max(math.ulp(a), math.ulp(b)) or abs(a - b) <= 1e-9 * max(abs(a), abs(b))
 
 
+def _allclose(a, b):
+    a, b = np.asarray(a, float), np.asarray(b, float)
+    return a.shape == b.shape and bool(np.allclose(a, b, rtol=1e-12, atol=0.0))
+
+
 def _le(a, b):
     return a <= b or _near(a, b)
 
@@ -456,7 +461,10 @@ def _two_d_case(i, rng, tier):
         h = hg.IrregularlyBin(ex, qx, hg.IrregularlyBin(ey, qy, hg.Count(), hg.Count()), hg.Count())
     # points well away from every possible edge: placement by the reported edges is then unambiguous
     nan, inf = float("nan"), float("inf")
-    pts = [(rng.choice([-0.77, 0.13, 0.31, 0.63, 0.94, 1.41, 1.93, 2.61, -2.03, 5.07, 0.31, 0.94, nan, inf]), rng.choice([-0.93, -0.41, 0.13, 0.61, 0.93, 1.63, -3.03, 4.07, 0.13, 0.61, nan, -inf]), rng.choice([1.0, 0.5, 2.0])) for _ in range(rng.randint(1, 15))]
+    # weights: dyadic, or (a third of the cases) decimal fractions and a large one - a cell then holds a float64 sum that a
+    # narrower storage type of the grid would not reproduce
+    wchoice = [1.0, 0.5, 2.0] if rng.random() < 0.67 else [0.1, 0.3, 1.0 / 3, 16777217.0, 0.7]
+    pts = [(rng.choice([-0.77, 0.13, 0.31, 0.63, 0.94, 1.41, 1.93, 2.61, -2.03, 5.07, 0.31, 0.94, nan, inf]), rng.choice([-0.93, -0.41, 0.13, 0.61, 0.93, 1.63, -3.03, 4.07, 0.13, 0.61, nan, -inf]), rng.choice(wchoice)) for _ in range(rng.randint(1, 15))]
     if kind == "SparselyBin":
         # +-inf saturates the sparse index: the dense grid over that span cannot be materialised
         pts = [(x if not math.isinf(x) else 0.31, y if not math.isinf(y) else 0.13, w) for x, y, w in pts]
@@ -492,11 +500,11 @@ def _two_d_case(i, rng, tier):
             iy = np.searchsorted(yr, y, side="right") - 1
             if 0 <= ix < len(xr) - 1 and 0 <= iy < len(yr) - 1:
                 want[iy, ix] += w
-        if not np.array_equal(want, grid):
+        if not np.allclose(want, grid, rtol=1e-12, atol=0.0):  # (vectorised chunks add the weights of a cell in another order)
             bad("xy_ranges_grid differs from the in-range weights: %r vs %r" % (grid.tolist(), want.tolist()))
-        if not np.array_equal(np.asarray(px.bin_entries(), float), grid.sum(axis=0)) and kind != "IrregularlyBin":
+        if kind != "IrregularlyBin" and not _allclose(np.asarray(px.bin_entries(), float), grid.sum(axis=0)):
             bad("project_on_x %r differs from the column sums %r" % (np.asarray(px.bin_entries()).tolist(), grid.sum(axis=0).tolist()))
-        if not np.array_equal(np.asarray(py.bin_entries(), float), grid.sum(axis=1)) and kind != "IrregularlyBin":
+        if kind != "IrregularlyBin" and not _allclose(np.asarray(py.bin_entries(), float), grid.sum(axis=1)):
             bad("project_on_y %r differs from the row sums %r" % (np.asarray(py.bin_entries()).tolist(), grid.sum(axis=1).tolist()))
         if kind == "IrregularlyBin":
             # IrregularlyBin has no under/overflow: its first and last bins reach to -inf / +inf and take part
@@ -510,9 +518,9 @@ def _two_d_case(i, rng, tier):
                     continue  # NaN goes to a nanflow, which no projection bin holds
                 wx[sum(1 for t in tx if t <= x) - 1] += w
                 wy[sum(1 for t in ty if t <= y) - 1] += w
-            if list(np.asarray(px.bin_entries(), float)) != wx:
+            if not _allclose(np.asarray(px.bin_entries(), float), wx):
                 bad("project_on_x %r differs from the weights per x bin %r" % (np.asarray(px.bin_entries()).tolist(), wx))
-            if list(np.asarray(py.bin_entries(), float)) != wy:
+            if not _allclose(np.asarray(py.bin_entries(), float), wy):
                 bad("project_on_y %r differs from the weights per y bin %r" % (np.asarray(py.bin_entries()).tolist(), wy))
         if kind == "Bin" and not np.array_equal(g2, grid):
             bad("hist_numpy.get_2dgrid %r differs from xy_ranges_grid %r" % (g2.tolist(), grid.tolist()))
@@ -633,6 +641,9 @@ def _categorize_case(i, rng, tier):
     hg = env.hg()
     h = hg.Categorize(lambda d: d["c"], hg.Count())
     cats = [rng.choice(S.CATEGORIES) for _ in range(rng.randint(1, 12))]
+    if i % 3 == 0:
+        # a boolean-valued quantity (all categories booleans: mixed key types are the subject of the C04 known finding)
+        cats = [rng.random() < 0.5 for _ in cats]
     ws = [rng.choice([1.0, 0.5, 2.0]) for _ in cats]
     for c, w in zip(cats, ws):
         h.fill({"c": c}, w)
@@ -649,12 +660,16 @@ def _categorize_case(i, rng, tier):
         failures.append(C.fail(None, "bin_entries() %r does not match the labels %r with weights %r" % (ent, labels, want), **wit))
     else:
         q = rng.sample(sorted(want), min(2, len(want))) + ["absent-label"]
+        if isinstance(cats[0], bool):
+            q = [x for x in labels][:2] + ["absent-label"]  # the labels as bin_labels() hands them out (numpy booleans)
         got = list(np.asarray(h.bin_entries(labels=q), float))
         if got != [want.get(x, 0.0) for x in q]:
             failures.append(C.fail(None, "bin_entries(labels=%r) = %r, expected %r" % (q, got, [want.get(x, 0.0) for x in q]), **wit))
         best = max(want.values())
-        if want[str(h.mpv)] != best:
-            failures.append(C.fail(None, "mpv %r holds %r, the maximum is %r" % (h.mpv, want[str(h.mpv)], best), **wit))
+        mp = h.mpv
+        mpw = want.get(mp, want.get(str(mp))) if not isinstance(cats[0], bool) else want.get(bool(mp))
+        if mpw != best:
+            failures.append(C.fail(None, "mpv %r holds %r, the maximum is %r" % (mp, mpw, best), **wit))
     return {"digest": C.digest("cat", cats, ws), "nontrivial": True, "failures": failures, "counters": {"categorize_cases": 1}, "sets": {}, "sample": {"kind": "Categorize views", "categories": cats[:6]}}
 
 
